@@ -98,6 +98,8 @@ def run_property(pid, tier='quick', seed=0, only=None, jobs=None):
     sys.path.insert(0, ROOT)
     os.environ['TALLY_VERIF'] = '1'
     mod = importlib.import_module(mod_name)
+    if hasattr(mod, 'prepare'):
+        mod.prepare(tier, seed)
     obs = mod.obligations(tier, seed)
     if only:
         obs = [o for o in obs if any(s in o.id for s in only)]
